@@ -108,7 +108,7 @@ pub fn shrink_term(t: &TD, fails: &mut dyn FnMut(&TD) -> bool, budget: usize) ->
                 return cur;
             }
             // strictly decreasing in (size, canon length, canon text)
-            if !td_wellformed(&c) {
+            if !td_wellformed(&c) && td_wellformed(&cur) {
                 continue;
             }
             let (cc, kc) = (c.canon(), cur.canon());
